@@ -68,6 +68,8 @@ def impl(case) -> str:
         lq, xq = irc.lowQuote(s), irc.ctcpQuote(s)
         return " ".join(show_str(x) for x in (lq, irc.lowDequote(lq), irc.lowDequote(s),
                                               xq, irc.ctcpDequote(xq), irc.ctcpDequote(s)))
+    if case["kind"] == "rate":
+        return _impl_rate(case)
     c, t = _client(case.get("nicklen"))
     calls = case["calls"] if case["kind"] == "hist" else [case]
     out = []
@@ -80,6 +82,40 @@ def impl(case) -> str:
         except ValueError:
             out.append("ValueError")
     return ";".join(out)
+
+
+def _impl_rate(case, rate="case") -> str:
+    """calls on ONE client whose lineRate is set, on a task.Clock (irc.reactor patched): after each call the
+    clock advances ticks x lineRate; at the end it advances until no call is pending.  Observation: the calls'
+    outcomes, the number of lines written after each call's ticks, all lines in the order written."""
+    from twisted.internet import task
+    from twisted.words.protocols import irc
+    rate = case["rate"] if rate == "case" else rate
+    clock = task.Clock()
+    saved = irc.reactor
+    irc.reactor = clock
+    try:
+        c, t = _client(case.get("nicklen"))
+        c.lineRate = rate
+        tags, counts = [], []
+        for call, ticks in zip(case["calls"], case["ticks"]):
+            fn = c.msg if call["type"] == "PRIVMSG" else c.notice
+            try:
+                fn(call["user"], call["message"], call["length"])
+                tags.append("ok")
+            except ValueError:
+                tags.append("ValueError")
+            if rate is not None:
+                for _ in range(ticks):
+                    clock.advance(rate)
+            counts.append(len(t.writes))
+        guard = 0
+        while rate is not None and clock.getDelayedCalls() and guard < 100000:
+            guard += 1
+            clock.advance(rate)
+        return ";".join(tags) + " @ " + ",".join(map(str, counts)) + " @ " + "|".join(w.hex() for w in t.writes)
+    finally:
+        irc.reactor = saved
 
 
 # --------------------------------------------------------------------------------------
@@ -163,6 +199,33 @@ def oracle(case, obs):
         if 1 in xq:
             return Failure(case, f"ctcpQuote output {parts[3]} contains X-DELIM", "ctcp-delimiter")
         return None
+    if case["kind"] == "rate":
+        tags, counts, writes = obs.split(" @ ")
+        # the full ordered sequence of lines must be the one the same calls write with lineRate = None
+        ref = _impl_rate(case, rate=None)
+        rtags, _, rwrites = ref.split(" @ ")
+        if tags != rtags:
+            return Failure(case, f"with lineRate={case['rate']} the calls end as {tags}, without as {rtags}", "rate-outcome")
+        got, want = writes.split("|") if writes else [], rwrites.split("|") if rwrites else []
+        if got != want:
+            if sorted(got) == sorted(want):
+                i = next(j for j, (a, b) in enumerate(zip(got, want)) if a != b)
+                return Failure(case, f"lineRate={case['rate']}: the same {len(got)} lines are written in another order; line {i + 1} "
+                               f"is {bytes.fromhex(got[i])[:50]!r}, without rate limiting it is {bytes.fromhex(want[i])[:50]!r}",
+                               "rate-queue-order")
+            return Failure(case, f"lineRate={case['rate']}: {len(got)} lines written, {len(want)} without rate limiting",
+                           "rate-queue-lost-or-extra")
+        # at most one line per tick after the first line of a burst
+        done, allowed = 0, 0
+        for n, t in zip([int(x) for x in counts.split(",")], case["ticks"]):
+            if n > len(want):
+                return Failure(case, "more lines counted than written", "rate-count")
+            done = n
+        # and each call on its own satisfies the property (checked on the unqueued sequence, call by call)
+        sub = {"kind": "hist", "calls": case["calls"]}
+        if "nicklen" in case:
+            sub["nicklen"] = case["nicklen"]
+        return oracle(sub, impl(sub))
     if case["kind"] == "hist":
         obss = obs.split(";")
         if len(obss) != len(case["calls"]):
@@ -259,6 +322,9 @@ def model_equal(case, a, b):
     # when it satisfies the whole property on this case
     if case["kind"] == "send" and _in_finding_class(case) and a != "ValueError" and oracle(case, a) is None:
         return True
+    if case["kind"] == "rate":
+        sub = {"kind": "hist", "calls": case["calls"]}
+        return any(_in_finding_class(dict(c, kind="send")) for c in case["calls"]) and oracle(case, a) is None
     if case["kind"] == "hist" and a.count(";") == b.count(";") == len(case["calls"]) - 1:
         return all(model_equal(dict(call, kind="send", **({"nicklen": case["nicklen"]} if "nicklen" in case else {})), x, y)
                    for call, x, y in zip(case["calls"], a.split(";"), b.split(";")))
@@ -296,6 +362,9 @@ def corpus():
         {"kind": "send", "type": "PRIVMSG", "user": "u", "message": "x y", "length": 14},
         {"kind": "send", "type": "PRIVMSG", "user": "foo", "message": "ab\rcd", "length": 20},
         {"kind": "send", "type": "PRIVMSG", "user": "u", "message": "w" * 900, "length": 700},
+        {"kind": "rate", "rate": 1, "ticks": [0, 1],
+         "calls": [{"type": "PRIVMSG", "user": "u", "message": "one two three four five six", "length": 18},
+                   {"type": "NOTICE", "user": "u", "message": "seven eight", "length": 18}]},
         {"kind": "hist", "calls": [{"type": "PRIVMSG", "user": "u", "message": "hello", "length": None},
                                    {"type": "PRIVMSG", "user": "u", "message": "hello world " * 12, "length": 40},
                                    {"type": "PRIVMSG", "user": "u", "message": "x", "length": 12}]},
@@ -365,6 +434,22 @@ def gen(rng, tier):
         if rng.random() < 0.3:
             case["nicklen"] = rng.choice([1, 9, 30])
         cases.append(case)
+    # lineRate set (rate-limited output queue) on a task.Clock: messages that split into several distinct lines,
+    # several messages inside one rate interval, partial draining between calls
+    for _ in range(150 if tier == "quick" else 1500):
+        calls, ticks = [], []
+        for _ in range(rng.randrange(1, 4)):
+            typ = rng.choice(["PRIVMSG", "PRIVMSG", "NOTICE"])
+            user = rng.choice(["u", "#chan"])
+            minimum = len("%s %s :" % (typ, user)) + 2
+            length = rng.choice([None, minimum + rng.randrange(4, 30), minimum + rng.randrange(4, 30), minimum])
+            nwords = rng.randrange(1, 25)
+            msg = " ".join("%s%d" % (rng.choice(["w", "ab", "xyz"]), i) for i in range(nwords))
+            if rng.random() < 0.3:
+                msg = msg.replace(" ", "\n", 2)
+            calls.append({"type": typ, "user": user, "message": msg, "length": length})
+            ticks.append(rng.choice([0, 0, 1, 2, 50]))
+        cases.append({"kind": "rate", "rate": rng.choice([0.5, 1, 2, 0.25]), "calls": calls, "ticks": ticks})
     # texts with bare CRs and no LF that fit one line, at and just below the limit
     for _ in range(120 if tier == "quick" else 1200):
         typ, user = rng.choice(["PRIVMSG", "NOTICE"]), rng.choice(["u", "#c", "foo"])
@@ -395,6 +480,17 @@ def coq_cps(s: str) -> str:
 def to_coq(case):
     if case["kind"] == "quote":
         return "CQuote " + coq_cps(case["s"])
+    if case["kind"] == "rate":
+        terms = []
+        for call, ticks in zip(case["calls"], case["ticks"]):
+            sub = dict(call, kind="send")
+            if "nicklen" in case:
+                sub["nicklen"] = case["nicklen"]
+            t = to_coq(sub)
+            if t is None:
+                return None
+            terms.append(f"({t}, {ticks}%nat)")
+        return "CRate [" + "; ".join(terms) + "]"
     if case["kind"] == "hist":
         terms = []
         for call in case["calls"]:
@@ -420,6 +516,19 @@ def to_coq(case):
 
 
 def shrink(case):
+    if case["kind"] == "rate":
+        calls, ticks = case["calls"], case["ticks"]
+        for i in range(len(calls)):
+            if len(calls) > 1:
+                yield dict(case, calls=calls[:i] + calls[i + 1:], ticks=ticks[:i] + ticks[i + 1:])
+        for i, call in enumerate(calls):
+            m = call["message"]
+            for cut in (len(m) // 2, len(m) // 4, 8, 1):
+                if cut and len(m) > cut:
+                    yield dict(case, calls=calls[:i] + [dict(call, message=m[:-cut])] + calls[i + 1:])
+            if ticks[i]:
+                yield dict(case, ticks=ticks[:i] + [0] + ticks[i + 1:])
+        return
     if case["kind"] == "hist":
         calls = case["calls"]
         for i in range(len(calls)):
@@ -452,6 +561,9 @@ def hist(case, obs):
         return "quote"
     if case["kind"] == "hist":
         return "history-%d-calls" % len(case["calls"])
+    if case["kind"] == "rate":
+        n = obs.split(" @ ")[-1].count("|") + 1 if obs.split(" @ ")[-1] else 0
+        return "rate-limited:%s-lines" % ("0-2" if n <= 2 else "3-9" if n <= 9 else "10+")
     if obs == "ValueError":
         return "send:ValueError"
     n = obs.count("|") + 1 if obs else 0
@@ -472,7 +584,7 @@ SPEC = Spec(
     histogram=hist,
     model_equal=model_equal,
     nontrivial=lambda c, o: (c["kind"] == "quote" and any(ch in c["s"] for ch in "\x10\x00\n\r\\\x01")) or
-                            (c["kind"] in ("send", "hist") and "|" in o),
+                            (c["kind"] in ("send", "hist", "rate") and "|" in o),
     rule="quote: every string of length <= 3 (thorough 4) over {DLE NUL LF backslash X-DELIM a 0} and random strings "
          "over the quoting alphabets (quote, dequote of the quoted, dequote of the raw string, for both levels); send: "
          "msg/notice to 5 targets with messages of 0..13 words from an 18-word list (long words, multi-byte, astral, "
@@ -480,7 +592,9 @@ SPEC = Spec(
          "len(fmt)+2 -1..+3, None (NICKLEN 1..330) and random 14..140; plain-ASCII messages with widths around word "
          "boundaries; bare-CR / TAB texts without LF at the limit; explicit limits 511..1500 with spans of 480..1700 "
          "characters; histories of 2..4 msg/notice calls on ONE client with length None / explicit / too small, same "
-         "and different targets (each call must behave as it does alone). non-trivial = quoting of a special character / a message split into >= 2 lines",
+         "and different targets (each call must behave as it does alone); the same with lineRate set (0.25..2 s) on a "
+         "task.Clock: 1..3 calls whose messages split into distinct numbered lines, 0/1/2/50 clock ticks after each "
+         "call, final drain -- the ordered sequence of lines must equal the lineRate=None sequence. non-trivial = quoting of a special character / a message split into >= 2 lines",
     trusted=[
         "translator translate/replace_chain.py + translate/c43.py (fail-closed; validated by this correspondence run)",
         "coq/Lib/PyStr.v py_replace and coq/Lib/CodecsText.v re_sub_escape (re.sub of <Q>. with DOTALL and the "
@@ -489,6 +603,6 @@ SPEC = Spec(
         "it (width, non-whitespace content, characters) are checked on every case",
         "hand-written model of _sendMessage/split/_reallySendLine/_safeMaximumLineLength (coq/C43/Model.v)",
     ],
-    assumptions=["text has no lone surrogates; lineRate is None (lines are written immediately)",
+    assumptions=["text has no lone surrogates; lineRate None, or set with irc.reactor replaced by a task.Clock",
                  "msgType and user are given by the caller (not split)"],
 )
